@@ -21,7 +21,7 @@ from .sym import PathInfeasible, SymBool, SymNum, Unsupported
 
 import re as _re
 
-_PROXY_ERR = _re.compile(r"'(Sym\w+|_?Ghost\w*|Blob|Tail|Atom|int_|float_|bytes_|_Poison|_Sym\w+|_Cut)'|z3\.|Z3")
+_PROXY_ERR = _re.compile(r"'(Sym\w+|_?Ghost\w*|Blob|Tail|Atom|int_|float_|bytes_|_Poison|_Sym\w+|_Cut|_Raw)'|z3\.|Z3")
 
 
 def _looks_like_proxy_error(e, msg):
